@@ -291,6 +291,21 @@ TECH3 = {
 # round 8 of the third session
 ADDED4 = {'C01': ' D11: rendering and the flow-metadata methods change nothing reachable from the instruction (shared with C09.D11). D12: dict_to_ad, evaluated on every segment override x address shape, shows the override (es is segment number 0). D3 evaluates get_afs on the ModRM tables init_pre_modrm builds: every ModRM byte of every addressing mode consumes the SIB byte and the displacement its entry names.', 'C02': ' D12: AT&T `ljmp $seg, $off` / `lcall $seg, $off` reach the EA / 9A rows as offset, segment.', 'C04': ' D17: result, CF, OF, ZF, SF and PF of add / adc / sub / sbb / cmp / neg / inc / dec / xadd / cmpxchg, evaluated from the lifted assignments on boundary operands x carry-in at 8, 16 and 32 bits, equal the IA-32 definition (a call site of D2 whose operands cannot be traced through the locals is decided there).', 'C05': ' D12: the simplifier run on the node classes as written (expression.py and expression_helper.py interpreted together, their own == deciding the fixpoint) keeps width and value for every family member that holds a signed constant and every sixth member.', 'C06': ' D5 also evaluates the << / >> / a>> evaluators on counts below, at and above the width (the IR shifts are not masked).', 'C07': ' D13: substract_mems, evaluated on cell width x store width x byte offset (all overlapping placements), leaves exactly the uncovered bytes of the old cell, each at its address with its bits.', 'C09': ' D8 covers the far jump / call (offset, segment order). D13: dict_to_ad renders the override of every segment in both syntaxes.', 'C11': " D7: the lifter's tables hold no one-shot iterator (shared with C12.D15).", 'C12': ' D14: a rejected decode leaves the stream at its offset, offset 0 included (the entry point is always evaluated; shared with C10.D4). D15: no module- or class-level table read inside a function holds a one-shot iterator (map / filter / zip / reversed / generator).', 'C13': ' D12: order-insensitivity on the node classes as written, each spelling simplified in a fresh interpretation of both modules and again after other calls in one interpretation (module-level caches included), operands with coinciding hashes included.', 'C18': ' D10 also evaluates the dispatcher class_from_op on a valid word followed by a word that differs in one fixed field, against a fresh dispatcher (no answer remembered under a partial key). D3 evaluates the default field extract / insert pair on 9 layouts.', 'C19': " D9: AT&T test / xchg with the memory operand written first: mnemo_from_att hands the caller's list back with the memory operand first."}
 
+ADDED5 = {
+    'C01': ' D10 also: the byte forms of the string instructions keep their name and byte operands under the operand-size prefix.',
+    'C02': ' D2 also: ad_to_generic on boundary displacements. D13: no parsing table hands out an object it keeps (result-cache verdict: sound when stored and returned objects are copies).',
+    'C03': ' D6: ad_to_generic on boundary displacements. D11: parsing tables and result caches (shared with C02.D13).',
+    'C06': ' D12: copy() of the memory pool carries every attribute the pool methods update and shares no container they change in place (shared with C12.D16).',
+    'C07': ' D14: copy() of the memory pool (shared with C12.D16).',
+    'C08': ' D9: operand expressions kept with an instruction or in a table are computed only from what selects their slot (owner, key, miss test): segm_to_do cannot feed a kept value (shared with C12.D17).',
+    'C09': ' D14: ad_to_generic on boundary displacements (shared with C02.D2).',
+    'C10': ' D11: the AT&T suffix tables (shared with C09.D1).',
+    'C12': ' D7 result-cache verdict (a table only one function fills is sound when what it stores and what it returns are copies, a violation when the stored object escapes and a caller edits it). D16: copy() of a state class carries every updated attribute, no in-place container aliased. D17: memoised values are computed from what selects their slot only.',
+    'C17': ' D7: every store of a segment override into a decoded operand: guards evaluated on the register / immediate / memory operand kinds; the key must not change what is_imm / is_reg / is_address answer, and some store must reach memory operands.',
+    'C18': ' D7 findings are keyed by cause (hint / ignored BO bits; BI under a condition-ignoring BO) or by field, BO value and CR0 / CRn for every other word.',
+    'C19': ' D10: parsing tables and result caches (shared with C02.D13).',
+}
+
 PENDING = {}
 
 ALL = ['C%02d' % i for i in range(1, 20)]
@@ -309,7 +324,7 @@ def main():
             'evidence_file': '/verif/evidence/%s.json' % pid,
             'replay_cmd_template': './check %s --replay {path}' % pid,
             'engine': 'sa',
-            'level_claimed': {'category': cat, 'text': text + ADDED.get(pid, '') + ADDED3.get(pid, '') + ADDED4.get(pid, ''), 'design_ref': 'DESIGN.md section 5 and 12, %s' % pid},
+            'level_claimed': {'category': cat, 'text': text + ADDED.get(pid, '') + ADDED3.get(pid, '') + ADDED4.get(pid, '') + ADDED5.get(pid, ''), 'design_ref': 'DESIGN.md section 5 and 12, %s' % pid},
             'level_note': note,
             'technique': tech + TECH3.get(pid, ''),
         })
